@@ -56,6 +56,8 @@ pub struct Profile {
     pub snoop_pc: u32,
     /// per-cent of forged frames that start from a fully valid frame
     pub forge_valid_pc: u32,
+    /// thorough tier: longer histories (more soak runs, larger step budgets)
+    pub deep: bool,
 }
 
 const ANSWERABLE: [u32; 17] = [6, 4, 4, 3, 4, 5, 0, 0, 0, 0, 0, 0, 0, 0, 0, 0, 0];
@@ -74,6 +76,7 @@ fn base(prop: Prop) -> Profile {
         big_bodies: 2,
         snoop_pc: 50,
         forge_valid_pc: 50,
+        deep: false,
     }
 }
 
